@@ -4,7 +4,9 @@
      crypto <CryptographyEngine method> | delete | commit | return, each followed by the chain of enclosing
      conditions (innermost first; "unless c" = the else branch of "if c").
    HAND-MAINTAINED: when engine.py changes, GuardTie.guards_as_modelled breaks; re-read the handler, update
-   Model.v, then this table.  The comment above each handler says which model clause mirrors it. *)
+   Model.v, then this table.  The comment above each handler says which model clause mirrors it.
+   Last brought up to date for /repo commits d24c06a (MAC type guard), 3da5f5b (Get: wrapping parameters and
+   wrapped-object type), 229c9a2 (DeriveKey: cryptographic parameters required). *)
 From Coq Require Import List String.
 Import ListNotations.
 Open Scope string_scope.
@@ -69,12 +71,13 @@ Definition expected_guards : list (string * list string) := [
     "raise PermissionDenied <- if enums.CryptographicUsageMask.VERIFY not in masks";
     "crypto verify_signature";
     "return "]);
-  (* Model.step, MAC: lookup; algorithm (given or a Key); value (assumed non-empty); data; .state (CrashBefore when absent); state; mask; crypto.  NO object-type guard. *)
+  (* Model.step, MAC: lookup; algorithm (given or a Key); value (assumed non-empty); data; type SymmetricKey|SecretData -> RType PermissionDenied (since d24c06a); state; mask; crypto *)
   ("_process_mac", [
     "lookup unique_identifier as enums.Operation.GET";
     "raise PermissionDenied <- unless isinstance(managed_object, objects.Key) and managed_object.cryptographic_algorithm <- unless payload.cryptographic_parameters and payload.cryptographic_parameters.cryptographic_algorithm";
     "raise PermissionDenied <- unless managed_object.value";
     "raise PermissionDenied <- unless payload.data";
+    "raise PermissionDenied <- if managed_object._object_type not in [enums.ObjectType.SYMMETRIC_KEY, enums.ObjectType.SECRET_DATA]";
     "raise PermissionDenied <- if managed_object.state != enums.State.ACTIVE";
     "let masks = managed_object.cryptographic_usage_masks";
     "raise PermissionDenied <- if enums.CryptographicUsageMask.MAC_GENERATE not in masks";
@@ -90,7 +93,7 @@ Definition expected_guards : list (string * list string) := [
     "raise PermissionDenied <- if enums.CryptographicUsageMask.SIGN not in masks";
     "crypto sign";
     "return "]);
-  (* Model.derive_bases + step DeriveKey: per base object lookup; type -> RType InvalidField; mask -> RMask InvalidField; NO state guard; existing_objects[0] on an empty list -> CrashBefore; the template/length refusals are outside the model (well-formed creation requests); crypto; new SymmetricKey *)
+  (* Model.derive_bases + step DeriveKey: per base object lookup; type -> RType InvalidField; mask -> RMask InvalidField; NO state guard; existing_objects[0] on an empty list -> CrashBefore; the template/length/parameter refusals are outside the model (well-formed requests); crypto; new SymmetricKey *)
   ("_process_derive_key", [
     "raise InvalidField <- if payload.object_type not in [enums.ObjectType.SYMMETRIC_KEY, enums.ObjectType.SECRET_DATA]";
     "lookup unique_identifier as enums.Operation.GET <- for unique_identifier in payload.unique_identifiers";
@@ -100,11 +103,12 @@ Definition expected_guards : list (string * list string) := [
     "raise InvalidField <- unless derivation_length % 8 == 0 <- if attribute";
     "raise InvalidField <- unless attribute";
     "raise InvalidField <- unless attribute <- if payload.object_type == enums.ObjectType.SYMMETRIC_KEY";
+    "raise InvalidField <- if crypto_parameters is None";
     "crypto derive_key";
     "raise CryptographicFailure <- if derivation_length > len(derived_data)";
     "commit ";
     "return "]);
-  (* Model.step, GetWrap (requests with wrapping method ENCRYPT, encryption key information, no attribute names, NO_ENCODING): lookup target; wrapping key lookup, any exception -> RWrapKeyMissing ItemNotFound; type -> RType IllegalOperation; state -> RState PermissionDenied; mask -> RMask PermissionDenied; crypto *)
+  (* Model.step, GetWrap (requests with wrapping method ENCRYPT, encryption key information with cryptographic parameters, no attribute names, NO_ENCODING): lookup target; wrapping key lookup, any exception -> RWrapKeyMissing ItemNotFound; type -> RType IllegalOperation; state -> RState PermissionDenied; mask -> RMask PermissionDenied; wrapped object not a key / secret data -> RType IllegalOperation (since 3da5f5b); crypto *)
   ("_process_get", [
     "raise KeyCompressionTypeNotSupported <- if payload.key_compression_type";
     "lookup unique_identifier as enums.Operation.GET";
@@ -119,6 +123,8 @@ Definition expected_guards : list (string * list string) := [
     "raise PermissionDenied <- if mask not in key.cryptographic_usage_masks <- if key_wrapping_spec.encryption_key_information <- if payload.key_wrapping_specification";
     "raise IllegalOperation <- if key_wrapping_spec.attribute_names <- if key_wrapping_spec.encryption_key_information <- if payload.key_wrapping_specification";
     "raise EncodingOptionError <- if encoding_option != enums.EncodingOption.NO_ENCODING <- if key_wrapping_spec.encryption_key_information <- if payload.key_wrapping_specification";
+    "raise InvalidField <- if encryption_key_params is None <- if key_wrapping_spec.encryption_key_information <- if payload.key_wrapping_specification";
+    "raise IllegalOperation <- if managed_object._object_type not in [enums.ObjectType.SYMMETRIC_KEY, enums.ObjectType.PUBLIC_KEY, enums.ObjectType.PRIVATE_KEY, enums.ObjectType.SPLIT_KEY, enums.ObjectType.SECRET_DATA] <- if key_wrapping_spec.encryption_key_information <- if payload.key_wrapping_specification";
     "crypto wrap_key <- if key_wrapping_spec.encryption_key_information <- if payload.key_wrapping_specification";
     "raise PermissionDenied <- if key_wrapping_spec.mac_signature_key_information <- unless key_wrapping_spec.encryption_key_information <- if payload.key_wrapping_specification";
     "raise PermissionDenied <- unless key_wrapping_spec.mac_signature_key_information <- unless key_wrapping_spec.encryption_key_information <- if payload.key_wrapping_specification";
